@@ -200,7 +200,7 @@ def check_c10(tier):
     return generic("C10", tier, P.oracle_c10, P.A_PSIM + [
         "soundness is checked as one-step derivability from the final database (implied by derivability because nothing is ever deleted)",
         "relations downstream of a choice are non-recursive in the templates and must equal what their rules derive from this run's choice"],
-        interp, comp, k_quick=12, k_thorough=40, ncomp_quick=3, ncomp_thorough=24)
+        interp, comp, k_quick=12, k_thorough=40, ncomp_quick=6, ncomp_thorough=30)
 
 
 def check_c11(tier):
@@ -212,12 +212,12 @@ def check_c11(tier):
         return interleave(gen_, corpus)
 
     def comp(exe, tier):
-        return (P.gen_workload("c11", s + 500000, "quick") for s in P.seeds_for("C11"))
+        return (P.gen_workload("c11c", s + 500000, "quick") for s in P.seeds_for("C11"))
 
     return generic("C11", tier, P.oracle_c11, P.A_PSIM + [
         "template dominance conditions are strict partial orders; costs are bounded so that the unsubsumed fixpoint is finite",
         "the repository's own subsumptive programs are only compared across runs (oracle parts i and iv)"],
-        interp, comp, k_quick=12, k_thorough=40, ncomp_quick=3, ncomp_thorough=24)
+        interp, comp, k_quick=12, k_thorough=40, ncomp_quick=6, ncomp_thorough=30)
 
 
 def check_c20(tier):
